@@ -52,8 +52,12 @@ func (v *FnVC) calleeName(c *ssa.CallCommon) (name string, fn *ssa.Function) {
 	case *ssa.UnOp:
 		if fv, ok := x.X.(*ssa.FreeVar); ok && x.Op == token.MUL {
 			if _, isF := deref(fv.Type()).Underlying().(*types.Signature); isF {
-				return fmt.Sprintf("%s#%s$call", v.Fn.String(), fv.Name()), nil
+				return v.funVarContractName(fv.Name()), nil
 			}
+		}
+	case *ssa.FreeVar:
+		if _, isF := x.Type().Underlying().(*types.Signature); isF {
+			return v.funVarContractName(x.Name()), nil
 		}
 	}
 	// call through a function-typed struct field: contract "(pkg.T).field$field" (assumed for every value stored there)
@@ -66,6 +70,18 @@ func (v *FnVC) calleeName(c *ssa.CallCommon) (name string, fn *ssa.Function) {
 		}
 	}
 	return "", nil
+}
+
+// funVarContractName: the contract name for calls through a captured function-typed variable: declared on this
+// closure ("<closure>#name$call") or on an enclosing function whose parameter/local it is ("<outer>#name$call").
+func (v *FnVC) funVarContractName(name string) string {
+	for f := v.Fn; f != nil; f = f.Parent() {
+		n := fmt.Sprintf("%s#%s$call", f.String(), name)
+		if v.W.ContractFor(n) != nil {
+			return n
+		}
+	}
+	return fmt.Sprintf("%s#%s$call", v.Fn.String(), name)
 }
 
 func qualifiedTypeName(t types.Type) string {
@@ -157,6 +173,7 @@ func (v *FnVC) encodeCall(ins ssa.Instruction, c *ssa.CallCommon, res ssa.Value)
 		mats = append(mats, mat{l, view})
 	}
 	v.checkCallAsserts(ins, name, fn, contract, sig, argTerms)
+	v.checkFunArgs(ins, fn, args)
 	results := make([]Term, sig.Results().Len())
 	if contract != nil {
 		v.applyContract(ins, contract, name, fn, closure, sig, argTerms, results)
@@ -422,6 +439,17 @@ func (v *FnVC) havocLoc(x Expr, env *Env, st *State) {
 				}
 				v.havocKey(st, v.elemKey(t))
 				return
+			case "allMaps": // allMaps("map[K]V"): contents of every map of that type
+				t, _ := v.W.resolveType(e.Args[0].(*EStr).V, env.pkg)
+				mt, ok := t.(*types.Map)
+				if !ok {
+					v.fail("allMaps: cannot resolve %s", e.Args[0])
+				}
+				d, vl, l := v.mapKeys(mt)
+				v.havocKey(st, d)
+				v.havocKey(st, vl)
+				v.havocKey(st, l)
+				return
 			}
 		}
 	}
@@ -645,7 +673,10 @@ func (v *FnVC) modKeysOf(x Expr, contract *FuncContract, fn *ssa.Function) []str
 		}
 	case *ECall:
 		if id, ok := e.Fun.(*EIdent); ok {
-			t := typeOf(e.Args[0])
+			var t types.Type
+			if len(e.Args) > 0 {
+				t = typeOf(e.Args[0])
+			}
 			switch id.Name {
 			case "elems":
 				if t != nil {
@@ -661,6 +692,13 @@ func (v *FnVC) modKeysOf(x Expr, contract *FuncContract, fn *ssa.Function) []str
 			case "allElems":
 				if tt, _ := v.W.resolveType(e.Args[0].(*EStr).V, pkg); tt != nil {
 					return []string{v.elemKey(tt)}
+				}
+			case "allMaps":
+				if tt, _ := v.W.resolveType(e.Args[0].(*EStr).V, pkg); tt != nil {
+					if mt, ok := tt.(*types.Map); ok {
+						d, vl, l := v.mapKeys(mt)
+						return []string{d, vl, l}
+					}
 				}
 			}
 		}
@@ -1162,6 +1200,14 @@ func (v *FnVC) frameTargets(x Expr, env *Env, all map[string]bool, refs map[stri
 					all[v.elemKey(tt)] = true
 					return
 				}
+			case "allMaps":
+				if tt, _ := v.W.resolveType(e.Args[0].(*EStr).V, env.pkg); tt != nil {
+					if mt, ok := tt.(*types.Map); ok {
+						d, vl, l := v.mapKeys(mt)
+						all[d], all[vl], all[l] = true, true, true
+						return
+					}
+				}
 			}
 		}
 	}
@@ -1171,6 +1217,9 @@ func (v *FnVC) frameTargets(x Expr, env *Env, all map[string]bool, refs map[stri
 // localAtExit resolves a source-level local in a postcondition: the variable must be bound in a block that
 // dominates every return (typically a value computed at the top of the function).
 func (v *FnVC) localAtExit(name string, st *State) (Term, bool) {
+	if t, ok := v.cellVar(name, st); ok {
+		return t, true
+	}
 	var retBlocks []*ssa.BasicBlock
 	for _, b := range v.Fn.Blocks {
 		if len(b.Instrs) > 0 {
@@ -1324,6 +1373,17 @@ func (v *FnVC) callModRefs(c *ssa.CallCommon) map[string]ssa.Value {
 			}
 		}
 		if obj == nil && closure != nil {
+			// captured struct variable: the object is the variable's storage (bound by address)
+			cf := closure.Fn.(*ssa.Function)
+			for k, fv := range cf.FreeVars {
+				if fv.Name() == id.Name && k < len(closure.Bindings) {
+					if _, isS := structOf(deref(closure.Bindings[k].Type())); isS {
+						obj = closure.Bindings[k]
+					}
+				}
+			}
+		}
+		if obj == nil && closure != nil {
 			continue // captured variable: a cell, not tracked here
 		}
 		if obj == nil {
@@ -1370,6 +1430,86 @@ func (v *FnVC) lvalueBase(x Expr, env *Env) (Term, bool) {
 				return p, true
 			}
 		}
+		if _, bound := env.vars[id.Name]; !bound && v.Fn != nil {
+			if p, ok := v.addrOfLocal(id.Name); ok && p.T != nil {
+				if _, isS := structOf(deref(p.T)); isS {
+					return p, true
+				}
+			}
+		}
 	}
 	return Term{}, false
+}
+
+// checkFunArgs: a closure (or named function) passed for a function-typed parameter p of a callee that declares a
+// contract "<callee>#p$call" for calls through p must itself be under a contract that subsumes it. Subsumption is
+// checked syntactically: every ensures clause of the $call contract occurs among the closure's ensures clauses, the
+// closure requires nothing beyond what the $call contract requires, and modifies nothing beyond what it lists.
+func (v *FnVC) checkFunArgs(ins ssa.Instruction, fn *ssa.Function, args []ssa.Value) {
+	if fn == nil || v.C == nil || v.C.File == "(literal scan)" {
+		return
+	}
+	norm := func(s string) string { return strings.Join(strings.Fields(s), " ") }
+	for k, a := range args {
+		if k >= len(fn.Params) {
+			break
+		}
+		if _, isF := fn.Params[k].Type().Underlying().(*types.Signature); !isF {
+			continue
+		}
+		cc := v.W.ContractFor(fmt.Sprintf("%s#%s$call", fn.String(), fn.Params[k].Name()))
+		if cc == nil {
+			continue
+		}
+		var af *ssa.Function
+		switch x := a.(type) {
+		case *ssa.MakeClosure:
+			af = x.Fn.(*ssa.Function)
+		case *ssa.Function:
+			af = x
+		}
+		kind := fmt.Sprintf("funarg:%s#%s", shortCallee(fn.String()), fn.Params[k].Name())
+		if af == nil {
+			v.oblige(kind, "false", "function value passed for a parameter with a $call contract is not a closure literal or named function", ins.Pos())
+			continue
+		}
+		ac := v.W.ContractFor(af.String())
+		if ac == nil {
+			v.oblige(kind, "false", fmt.Sprintf("%s is passed for %s but has no contract", shortCallee(af.String()), fn.Params[k].Name()), ins.Pos())
+			continue
+		}
+		has := func(cs []*Clause, text string) bool {
+			for _, c := range cs {
+				if norm(c.Text) == norm(text) && c.Kind != "trusted-ensures" {
+					return true
+				}
+			}
+			return false
+		}
+		ok := true
+		why := ""
+		for _, c := range cc.Ensures {
+			if !has(ac.Ensures, c.Text) {
+				ok, why = false, "missing ensures: "+c.Text
+			}
+		}
+		for _, c := range ac.Requires {
+			if !has(cc.Requires, c.Text) {
+				ok, why = false, "extra requires: "+c.Text
+			}
+		}
+		if ac.ModifiesAll && !cc.ModifiesAll {
+			ok, why = false, "modifies * not allowed by the $call contract"
+		}
+		for _, c := range ac.Modifies {
+			if !has(cc.Modifies, c.Text) && !cc.ModifiesAll {
+				ok, why = false, "extra modifies: "+c.Text
+			}
+		}
+		form := "true"
+		if !ok {
+			form = "false"
+		}
+		v.oblige(kind, form, fmt.Sprintf("contract of %s subsumes the $call contract of parameter %s of %s %s", shortCallee(af.String()), fn.Params[k].Name(), shortCallee(fn.String()), why), ins.Pos())
+	}
 }
